@@ -528,6 +528,21 @@ def strip_casts(n):
     return n
 
 
+def core(n):
+    """strip casts and copy/move/converting single-argument constructions."""
+    while n is not None:
+        k = n.get("k")
+        if k == "cast":
+            n = n.child("e")
+        elif k == "construct" and len([a for a in n.get("args", []) if a >= 0]) == 1:
+            n = n.fn.nodes[[a for a in n["args"] if a >= 0][0]]
+        elif k == "construct" and len(n.get("args", [])) == 2 and "allocator" in expr_str(n.fn.nodes[n["args"][1]]):
+            n = n.fn.nodes[n["args"][0]]
+        else:
+            return n
+    return n
+
+
 def root_var(n):
     """the base variable/`this` an lvalue expression is rooted at."""
     while n is not None:
